@@ -659,6 +659,7 @@ Definition legal (i : input) : bool :=
      end
   && nodup_keys (target_anns (i_target i) ++ i_meta i)%list
   && nodup_keys (i_vmeta i)
+  && nodup_keys (target_anns (i_vtarget i))
   && Bool.eqb (is_blob (i_target i)) (is_blob (i_vtarget i))
   && safe_map (target_anns (i_target i) ++ i_meta i)%list
   && forallb (fun e => negb (has_prefix "io.cncf.notary" (fst e))) (i_meta i)
